@@ -286,8 +286,20 @@ def gen_case(rng, tier, index):
             return {"kind": "transfer_multi", "device": rng.choice(["evo", "fluent"]), "m": m, "vs": vs,
                     "wash": rng.choice([1, 2, "flush", "reuse"]), "pb": rng.choice(["auto", "source", "destination"]),
                     "same_column_dst": rng.random() < 0.7}
-        return {"kind": "transfer", "device": rng.choice(["evo", "fluent"]), "m": m, "v": v, "auto_split": auto,
+        case = {"kind": "transfer", "device": rng.choice(["evo", "fluent"]), "m": m, "v": v, "auto_split": auto,
                 "wash": rng.choice([1, 1, 2, 3, 4, "flush", "reuse"]), "src": rng.choice(["plate", "plate", "trough"])}
+        if rng.random() < 0.25:
+            # pass-through keyword arguments do not change what is pipetted
+            case["kw"] = rng.choice([{"liquid_class": "Water free"}, {"tip": 3}, {"tip": {"__tip__": "T2"}, "liquid_class": "DMSO"},
+                                     {"rack_id": "B7"}, {"liquid_class": "Water free", "rack_type": "96 Well"}])
+        if auto and rng.random() < 0.004:
+            # a bulk transfer of several litres: far more than one record can carry (7 158 278 uL), split like any other
+            case["m"] = rng.choice([50000, 100000, 950, 5000.5])
+            case["v"] = rng.choice([7158278.5, 7158279, 8000000.0, 1.5e7, 7158278 + float(case["m"])])
+            case["huge"] = True
+            if rng.random() < 0.6:
+                case["kw"] = rng.choice([{"liquid_class": "Water free"}, {"tip": 3}, {"rack_id": "B7"}])
+        return case
     fm = float(m)
     req = rng.choice([1, 2, 3, 4, 6, 8, 12, rng.randint(1, 30)])
     vol = rng.choice([fm / rng.randint(1, 12), round(rng.uniform(0.01, fm), 2), rng.uniform(0.001, fm),
@@ -298,7 +310,11 @@ def gen_case(rng, tier, index):
         vol = fm / 2
     vol = narrow_scalar(rng, vol, 0.35)  # the same number as a narrow numpy integer (int8 ... uint16) now and then
     if r < 0.94:
-        return {"kind": "rd", "cls": rng.choice(["base", "evo", "fluent"]), "m": m, "volume": vol, "multi_disp": req}
+        case = {"kind": "rd", "cls": rng.choice(["base", "evo", "fluent"]), "m": m, "volume": vol, "multi_disp": req}
+        if rng.random() < 0.3:
+            # not the first reagent distribution on this worklist object
+            case["before"] = [[rng.choice([fm / 2, fm / 3, fm, fm / 7, 1.0]), rng.choice([1, 2, 6, 12])] for _ in range(rng.randint(1, 3))]
+        return case
     return {"kind": "distribute", "device": rng.choice(["evo", "fluent"]), "m": m, "volume": vol, "multi_disp": req,
             "n_dst": rng.randint(1, 24)}
 
@@ -400,9 +416,13 @@ def _run_transfer(ctx, case):
     log.clear()
     exc = None
     try:
-        wl.transfer(src, "A01", dst, "B02", v, wash_scheme=dec(case.get("wash", 1)))
+        wl.transfer(src, "A01", dst, "B02", v, wash_scheme=dec(case.get("wash", 1)), **(dec(case.get("kw")) or {}))
     except Exception as e:
         exc = e
+    if case.get("kw"):
+        ctx.count("transfer_with_pass_through_kwargs")
+    if case.get("huge"):
+        ctx.count("transfer_above_the_per_record_volume_limit")
     calls = list(log)
     log.clear()
     records = list(wl)
@@ -581,12 +601,20 @@ def _run_rd(ctx, case):
         ctx.count("volume_as_" + type(vol_arg).__name__)
     cls = {"base": robotools.BaseWorklist, "evo": robotools.EvoWorklist, "fluent": robotools.FluentWorklist}[case["cls"]]
     wl = cls(max_volume=m)
+    for bv, bm in case.get("before", ()):
+        try:
+            wl.reagent_distribution("SRC", 1, 8, "OTHER", 1, 96, volume=bv, multi_disp=bm)
+        except Exception:
+            pass
+    n0 = len(wl)
+    if case.get("before"):
+        ctx.count("rd_on_a_worklist_with_earlier_distributions")
     exc = None
     try:
         wl.reagent_distribution("SRC", 1, 8, "DST", 1, 96, volume=vol_arg, multi_disp=req)
     except Exception as e:
         exc = e
-    records = list(wl)
+    records = list(wl)[n0:]
     ctx.count("rd_calls")
     ctx.case(case, fr(req) * fr(vol) > fr(m))
     if vol > m:
